@@ -522,3 +522,66 @@ func LenOffsets(b []byte) []int {
 	walkMsg(0, b)
 	return out
 }
+
+// Depth walks b leniently and returns the deepest option nesting level it can
+// find (0 for a flat message): one level per IA / IA address / IA prefix /
+// vendor-opts / NTP / 4RD container and per encapsulated relay message.
+func Depth(b []byte) int {
+	maxd := 0
+	var walkMsg func(p []byte, d int)
+	var walkOpts func(p []byte, sp Space, d int)
+	walkOpts = func(p []byte, sp Space, d int) {
+		if d > maxd {
+			maxd = d
+		}
+		for i := 0; i+4 <= len(p); {
+			code := uint16(p[i])<<8 | uint16(p[i+1])
+			l := int(p[i+2])<<8 | int(p[i+3])
+			end := i + 4 + l
+			if end > len(p) {
+				end = len(p)
+			}
+			body := p[i+4 : end]
+			if sp == Top {
+				skip := -1
+				switch Known[code] {
+				case "iana", "iapd":
+					skip = 12
+				case "iata":
+					skip = 4
+				case "iaaddr":
+					skip = 24
+				case "iaprefix":
+					skip = 25
+				case "4rd":
+					skip = 0
+				}
+				switch {
+				case skip >= 0 && len(body) >= skip:
+					walkOpts(body[skip:], Top, d+1)
+				case Known[code] == "vendoropts" && len(body) >= 4:
+					walkOpts(body[4:], Vendor, d+1)
+				case Known[code] == "ntp":
+					walkOpts(body, NTP, d+1)
+				case Known[code] == "relaymsg":
+					walkMsg(body, d+1)
+				}
+			}
+			i += 4 + l
+		}
+	}
+	walkMsg = func(p []byte, d int) {
+		if len(p) == 0 {
+			return
+		}
+		h := 4
+		if p[0] == 12 || p[0] == 13 {
+			h = 34
+		}
+		if len(p) >= h {
+			walkOpts(p[h:], Top, d)
+		}
+	}
+	walkMsg(b, 0)
+	return maxd
+}
